@@ -68,16 +68,18 @@ def gen_case(rng, nsched):
 
 
 SMALL = [
-    # (object, threads, spurious, preemption bound)
-    ("bq", [["put 1", "put 2"], ["take", "take"]], False, 2),
-    ("bq", [["put 1"], ["take"], ["take"], ["put 2"]], False, 2),
-    ("bq", [["put 1", "put 2"], ["take", "drain"], ["size"]], True, 2),
-    ("bbq 1", [["put 1", "put 2"], ["take", "take"]], False, 2),
-    ("bbq 1", [["put 1"], ["put 2"], ["take", "take"]], False, 2),
-    ("bbq 1", [["put 1", "put 2"], ["take"], ["take"]], True, 2),
-    ("bbq 2", [["put 1", "put 2", "put 3"], ["take", "full"], ["take", "take"]], False, 2),
-    ("latch 1", [["wait"], ["wait"], ["countDown"]], False, 2),
+    # (object, threads, spurious, preemption bound); the first three are also explored in the quick tier
+    ("bq", [["put 1", "put 2"], ["take"], ["take"]], False, 2),
+    ("bbq 1", [["put 1", "put 2"], ["take", "take"]], True, 2),
+    ("latch 1", [["wait"], ["wait", "getCount"], ["countDown"]], True, 2),
+    ("bq", [["put 1", "put 2", "put 3"], ["take", "drain"], ["take", "size"]], False, 2),
+    ("bq", [["put 1", "take"], ["put 2", "take"], ["take", "put 3"]], True, 2),
+    ("bbq 1", [["put 1"], ["put 2"], ["take"], ["take"]], False, 2),
+    ("bbq 1", [["put 1", "put 2", "put 3"], ["take"], ["take", "take"]], True, 2),
+    ("bbq 2", [["put 1", "put 2", "put 3"], ["take", "full"], ["take", "take", "empty"]], False, 2),
+    ("bbq 2", [["put 1", "put 2"], ["put 3", "put 4"], ["take", "take"], ["take", "take"]], False, 2),
     ("latch 2", [["wait", "getCount"], ["wait"], ["countDown"], ["countDown"]], True, 2),
+    ("latch 1", [["wait"], ["wait"], ["wait"], ["countDown", "countDown"]], False, 3),
 ]
 
 
@@ -150,8 +152,8 @@ class Prop:
             if fl == "dbg":
                 # systematic part: every schedule with <= bound preemptions
                 total, complete = 0, []
-                limit = 6000 if heavy else 700
-                for obj, threads, spur, bound in (SMALL if heavy else SMALL[:1] + SMALL[3:4] + SMALL[7:8]):
+                limit = 12000 if heavy else 2500
+                for obj, threads, spur, bound in (SMALL if heavy else SMALL[:3]):
                     c = mc.MCase(obj, threads, [], spur, "systematic")
                     n, done = r.explore(exe, c, bound, limit)
                     total += n
@@ -161,7 +163,7 @@ class Prop:
                         return
                 ctx.extra["systematic"] = complete
                 ctx.count("systematic_runs", total)
-            ncases = (1500 if fl == "dbg" else 300) if heavy else 250
+            ncases = (4000 if fl == "dbg" else 600) if heavy else 600
             batch = []
             for i in range(ncases):
                 batch.append(gen_case(ctx.rng, 6 if heavy else 3))
